@@ -5,7 +5,7 @@ base = json.load(open('/root/.vp/BASELINE.json'))
 fd, xml = tempfile.mkstemp(suffix='.xml'); os.close(fd)
 env = {k: v for k, v in os.environ.items() if k != 'EMG3D_VERIF'}
 cmd = ['/venv/bin/python', '-m', 'pytest', '-q', '-p', 'no:cacheprovider', '--timeout=900',
-       '--continue-on-collection-errors', '-n', sys.argv[1] if len(sys.argv) > 1 else '8',
+       '--continue-on-collection-errors', '-n', sys.argv[1] if len(sys.argv) > 1 else "0",
        f'--junitxml={xml}']
 subprocess.run(cmd, cwd='/repo', env=env, stdout=subprocess.DEVNULL)
 passed = set()
